@@ -299,8 +299,10 @@ class Item:
     # -- helpers -------------------------------------------------------------------------
     def body_open(self):
         i = 0
-        while self.toks[i].s != "fn":
+        while i < len(self.toks) and self.toks[i].s != "fn":
             i += 1
+        if i >= len(self.toks):
+            i = 0   # a struct / enum item: its body is the first brace group
         o = _body_open(self.toks, i, len(self.toks))
         if o is None:
             raise LostAnchor("no body for %s" % self.path)
@@ -515,6 +517,21 @@ class Item:
             raise LostAnchor("enum-eq: %d comparisons against `%s..` in %s, expected %d" % (n, " ".join(pre), self.path, count))
         self.log.append({"kind": "abstract-op", "what": "enum-eq", "prefix": " ".join(pre), "count": n, "via": call or "matches!",
                          "why": why or "derived PartialEq on a field-less enum is variant equality"})
+
+    def drop_attrs(self, why=""):
+        """delete every `#[...]` attribute inside the item (field attributes of derive helper crates such as
+        `#[default(..)]`, doc attributes).  Attributes carry no layout or value information used here."""
+        T = self.toks
+        i = 0
+        n = 0
+        while i < len(T) - 1:
+            if T[i].s == "#" and T[i + 1].s == "[":
+                c = match_close(T, i + 1)
+                del T[i:c + 1]
+                n += 1
+                continue
+            i += 1
+        self.log.append({"kind": "drop-attrs", "count": n, "why": why or "attributes of derive helper crates"})
 
     def insert_at_signature(self, text):
         o = self.body_open()
@@ -866,7 +883,7 @@ class Item:
                 i = start
                 continue
             i += 1
-        if n != expect:
+        if expect >= 0 and n != expect:
             raise LostAnchor("drop-log: found %d log statements in %s, expected %d" % (n, self.path, expect))
         self.log.append({"kind": "drop-log", "count": n, "args_with_arithmetic_or_index": risky,
                          "why": "logging only; arguments are not evaluated in the verified text"})
@@ -914,7 +931,7 @@ class Item:
                 i += len(new)
                 continue
             i += 1
-        if n != expect:
+        if expect >= 0 and n != expect:
             raise LostAnchor("sink: found %d write!/writeln! statements in %s, expected %d" % (n, self.path, expect))
         self.log.append({"kind": "sink", "count": n, "why": "formatting dropped, argument expressions kept"})
 
